@@ -343,7 +343,7 @@ def custom(run, tier):
     for k in range(3):
         ts = trees(k, memo)
         if k == 2:
-            ts = run.rng.sample(ts, 2500 if tier == "quick" else 30000)
+            ts = run.rng.sample(ts, min(len(ts), 2500 if tier == "quick" else 30000))
         for t in ts:
             for sc in SCOPES[:2]:
                 v = py_value(t, sc)
